@@ -408,7 +408,8 @@ Definition pool_init : pool := mk_pool [] [] [] [] [].
 Inductive plabel :=
 | PAdd (c : N)        (* handle_ready_connection accepts a new connection: push + update_shared_conns *)
 | PBreak (c : N)      (* the router of c ends with an error: error_sender fires *)
-| PProcess            (* run(): next connection_errors event -> remove_connection + update_shared_conns *)
+| PProcess (c : N)    (* run(): SOME ready connection_errors event (FuturesUnordered: any order)
+                         -> remove_connection + update_shared_conns *)
 | PGet (c : N).       (* a request picks connection c from the shared snapshot *)
 
 Definition pstep (p : pool) (l : plabel) : option pool :=
@@ -420,14 +421,12 @@ Definition pstep (p : pool) (l : plabel) : option pool :=
       if nmem c (p_seen p) && negb (nmem c (p_broken p))
       then Some (mk_pool (p_conns p) (p_shared p) (p_events p ++ [c]) (p_broken p ++ [c]) (p_seen p))
       else None
-  | PProcess =>
-      match p_events p with
-      | [] => None
-      | c :: ev =>
-          (* remove_connection: swap_remove from the bucket, then update_shared_conns *)
-          let conns := filter (fun x => negb (x =? c)) (p_conns p) in
-          Some (mk_pool conns conns ev (p_broken p) (p_seen p))
-      end
+  | PProcess c =>
+      if nmem c (p_events p) then
+        (* remove_connection: swap_remove from the bucket, then update_shared_conns *)
+        let conns := filter (fun x => negb (x =? c)) (p_conns p) in
+        Some (mk_pool conns conns (filter (fun x => negb (x =? c)) (p_events p)) (p_broken p) (p_seen p))
+      else None
   | PGet c => if nmem c (p_shared p) then Some p else None
   end.
 
@@ -478,6 +477,24 @@ Definition td_next (st : conn) : option conn :=
   | Some st' => Some st'
   | None => match c_reserved st with r :: _ => step st (Push r) | [] => None end
   end.
+
+(* how many labels of a schedule [run_lenient] had to skip because they were not enabled; a
+   [KaTimeout] derived from a client-side close is tolerated (an ordinary close).  The driver
+   reports a trace with skipped labels as a broken correspondence: such a trace is NOT a run. *)
+Fixpoint skipped_labels (st : conn) (ls : list label) : nat :=
+  match ls with
+  | [] => O
+  | l :: r =>
+      match step st l with
+      | Some st' => skipped_labels st' r
+      | None => (match l with KaTimeout => O | _ => 1%nat end + skipped_labels st r)%nat
+      end
+  end.
+
+(* the statement's retry clause as the driver evaluates it: a request seen on [attempts]
+   connections is admissible iff it is idempotent or was sent at most once *)
+Definition resend_ok (idempotent : bool) (attempts : nat) : bool :=
+  idempotent || (attempts <=? 1)%nat.
 
 Fixpoint teardown (fuel : nat) (st : conn) : conn :=
   match fuel with
